@@ -1362,7 +1362,20 @@ func runC04(c *Ctx, pr *PropertyRun) {
 	pr.Rules = append(pr.Rules, one)
 	fiT := p.NamedType(pkgWebdav, "FileInfo")
 	prod := p.MustFunc(one, pkgWebdav, "fileInfoFromOS")
-	clientSide := p.Func(pkgWebdav, "fileInfoFromResponse")
+	// the server side: everything reachable from the handler and from the
+	// file system's methods (what the client builds from a response is not a
+	// producer of tags)
+	var serverRoots []*ssa.Function
+	if h := p.Func(pkgWebdav, "(*Handler).ServeHTTP"); h != nil {
+		serverRoots = append(serverRoots, h)
+	}
+	lfsT := p.NamedType(pkgWebdav, "LocalFileSystem")
+	for _, fn := range p.ModFns {
+		if lfsT != nil && recvNamed(fn) == lfsT {
+			serverRoots = append(serverRoots, fn)
+		}
+	}
+	serverSide := c.CG().Reach(serverRoots, moduleOnly(p))
 	for _, fn := range p.ModFns {
 		if !inLib(fn) || p.isControlFn(fn) {
 			continue
@@ -1377,7 +1390,8 @@ func runC04(c *Ctx, pr *PropertyRun) {
 				return
 			}
 			one.Role("etag-store")
-			ok = fn == prod || fn == clientSide
+			_, onServer := serverSide[fn]
+			ok = fn == prod || !onServer
 			one.Ob(ok)
 			if !ok {
 				one.Violation("second-producer|"+fnKey(fn), p.instrPos(st), fnKey(fn)+" assigns FileInfo.ETag: with two producers PUT, GET, HEAD and PROPFIND can announce different tags for the same unmodified resource", nil)
